@@ -84,7 +84,11 @@ Lemma if_without_else_is_null : forall f cenv e s c b v e1 s1,
 Proof. intros. cbn [eval]. rewrite H, H0. reflexivity. Qed.
 
 (* ------------------------------------------------------------------ C03 *)
-Lemma wildcard_always_matches : forall f s v e, match_pat (S f) s PWild v e = MYes e.
+Lemma wildcard_always_matches : forall f s v e, match_pat (S f) s (PWild None) v e = MYes e.
+Proof. reflexivity. Qed.
+
+Lemma typed_wildcard_matches_iff_hint : forall f s h v e,
+  match_pat (S f) s (PWild (Some h)) v e = if hint_ok h v then MYes e else MNo.
 Proof. reflexivity. Qed.
 
 Lemma id_always_matches_and_binds : forall f s x v e, match_pat (S f) s (PId x None) v e = MYes (update x v e).
